@@ -5,6 +5,7 @@ Dimensions of physical quantities
 """
 
 from functools import wraps
+from inspect import unwrap
 from itertools import chain
 
 from sympy import Rational, Symbol, sympify
@@ -263,7 +264,9 @@ def accepts(**arg_units):
             Decorated function.
 
         """
-        names_of_args = f.__code__.co_varnames
+        # the parameter names of the function itself, also when it comes
+        # wrapped by another decorator (e.g. returns)
+        names_of_args = unwrap(f).__code__.co_varnames
 
         @wraps(f)
         def new_f(*args, **kwargs):
